@@ -502,6 +502,84 @@ def treatAs (tb : Tables) (xsd11 : Bool) (t : Ty) (v : List Item) : Except Err (
   | .empty => if v.isEmpty then .ok [] else .error .XPDY0050
   | t => treatLoop t.tokOcc (instItem tb xsd11 t) 0 v []
 
+/-! ## partial application of function items, and judgement histories
+
+`$f(?, 1, 2)` (xpath30/_xpath30_operators.py l.108-117): `func = copy(func); func[:] = tokens;
+func.to_partial_function()` — the arity becomes the number of placeholders, `sequence_types` is unchanged,
+and `match_function_test` (functions.py l.318) reads the signature as `sequence_types[:arity] + [sequence_types[-1]]`. -/
+
+/-- the parameters at the placeholder positions (`true` = `?`): the signature of a partial application
+according to XPath 3.1 §3.1.6 ("the parameters … corresponding to placeholders, in order") -/
+def Tys.pick : Tys → List Bool → Tys
+  | .cons a as, true :: m => .cons a (as.pick m)
+  | .cons _ as, false :: m => as.pick m
+  | _, _ => .nil
+
+def Tys.take : Nat → Tys → Tys
+  | 0, _ => .nil
+  | _ + 1, .nil => .nil
+  | n + 1, .cons a as => .cons a (as.take n)
+
+/-- specification: the parameter types of `f(mask)` -/
+def partialSig (a : Tys) (mask : List Bool) : Tys := a.pick mask
+
+/-- what the code uses: the first `arity` parameter types, `arity` = number of placeholders -/
+def implPartialArgs (a : Tys) (mask : List Bool) : Tys := a.take (mask.count true)
+
+/-- the placeholders come first (`f(?, ?, 1)`): there the two coincide; elsewhere finding F18q -/
+def prefixMask : List Bool → Bool
+  | [] => true
+  | true :: m => prefixMask m
+  | false :: m => m.all (fun b => !b)
+
+/-- the function item produced by a partial application, as the code types it -/
+def Item.partialApply (mask : List Bool) : Item → Item
+  | .func a r => .func (implPartialArgs a mask) r
+  | x => x
+
+/-- the function item produced by a partial application, as XPath types it -/
+def Item.partialApplySpec (mask : List Bool) : Item → Item
+  | .func a r => .func (partialSig a mask) r
+  | x => x
+
+/-- operations of a judgement history on a pool of function items (positions in the pool) -/
+inductive HOp
+  | jMatch (i : Nat) (t : Ty)          -- match_sequence_type(pool[i], t)
+  | jInst (i : Nat) (t : Ty)           -- pool[i] instance of t
+  | jTreat (i : Nat) (t : Ty)          -- pool[i] treat as t
+  | papp (i : Nat) (mask : List Bool)      -- pool.append(pool[i](mask))
+
+def HOp.isPartial : HOp → Bool
+  | .papp _ _ => true | _ => false
+
+/-- one step: the new pool and the answer (`none` for a partial application).  Judgements only read. -/
+def hStep (tb : Tables) (xsd11 : Bool) (pool : List Item) : HOp → List Item × Option Res
+  | .jMatch i t => (pool, some (matchSt tb xsd11 true t [pool.getD i default]))
+  | .jInst i t => (pool, some (instanceOf tb xsd11 t [pool.getD i default]))
+  | .jTreat i t => (pool, some (match treatAs tb xsd11 t [pool.getD i default] with
+      | .ok _ => .ok true | .error .XPDY0050 => .ok false | .error e => .error e))
+  | .papp i mask => (pool ++ [(pool.getD i default).partialApply mask], none)
+
+def hRun (tb : Tables) (xsd11 : Bool) : List Item → List HOp → List (Option Res)
+  | _, [] => []
+  | pool, op :: ops => (hStep tb xsd11 pool op).2 :: hRun tb xsd11 (hStep tb xsd11 pool op).1 ops
+
+def hPool (tb : Tables) (xsd11 : Bool) : List Item → List HOp → List Item
+  | pool, [] => pool
+  | pool, op :: ops => hPool tb xsd11 (hStep tb xsd11 pool op).1 ops
+
+/-- the same history for the specification: partial applications typed by `partialSig` -/
+def hPoolSpec : List Item → List HOp → List Item
+  | pool, [] => pool
+  | pool, .papp i mask :: ops => hPoolSpec (pool ++ [(pool.getD i default).partialApplySpec mask]) ops
+  | pool, _ :: ops => hPoolSpec pool ops
+
+/-- trigger of F18q per pool item: it was derived (directly or not) through a mask that is no prefix mask -/
+def hTainted : List Bool → List HOp → List Bool
+  | fl, [] => fl
+  | fl, .papp i mask :: ops => hTainted (fl ++ [fl.getD i false || !prefixMask mask]) ops
+  | fl, _ :: ops => hTainted fl ops
+
 /-! ## decidable regions: where the AST reading and the string-driven code agree by construction,
 the domain of the specification, and the trigger predicates of the known findings -/
 
